@@ -262,9 +262,12 @@ GetReturnsCompletedSet(S) == \A t \in Threads : (S.pc[t] = "done" /\ S.op[t].kin
 \* bytes, not-found only if id was absent at some moment of the call, bytes only if id was stored (or
 \* its DeletePart still in progress) at some moment of the call
 PartGetWhole(S, t) == S.res[t].st = "hit" /\ S.res[t].chunks = ValChunks(S.op[t].k, PV)
-PartGetOK(S, t) == \/ S.res[t].st = "notfound" /\ S.sawA[t]
-                   \/ PartGetWhole(S, t) /\ S.sawP[t]
-PartCacheExact(S) == \A t \in Threads : (S.pc[t] = "done" /\ S.op[t].kind = "pget") => PartGetOK(S, t)
+PartGetExact(S, t) == S.res[t].st = "notfound" \/ PartGetWhole(S, t)                 \* never partial / foreign
+PartGetFresh(S, t) == /\ S.res[t].st = "notfound" => S.sawA[t]
+                      /\ PartGetWhole(S, t) => S.sawP[t]                               \* never stale after delete
+PartGetOK(S, t) == PartGetExact(S, t) /\ PartGetFresh(S, t)
+PartDone(S, t) == S.pc[t] = "done" /\ S.op[t].kind = "pget"
+PartCacheExact(S) == \A t \in Threads : PartDone(S, t) => PartGetOK(S, t)
 
 NoPanic(S) == ~S.panicked
 NoUnsyncedMapAccess(S) == ~S.unsync
@@ -282,9 +285,12 @@ Next == \E t \in Threads :
 Spec == Init /\ [][Next]_S
 
 Sym == Permutations(Threads) \cup Permutations(Keys) \cup Permutations(Vals)
+SymT == Permutations(Threads)
 
 InvGet == GetReturnsCompletedSet(S)
 InvPart == PartCacheExact(S)
+InvPartWhole == \A t \in Threads : PartDone(S, t) => PartGetExact(S, t)
+InvPartFresh == \A t \in Threads : PartDone(S, t) => PartGetFresh(S, t)
 InvNoPanic == NoPanic(S)
 InvNoUnsync == NoUnsyncedMapAccess(S)
 InvCanStep == \A t \in Threads : CanStep(S, t) <=> (StepSet(S, t) # {})
